@@ -311,3 +311,97 @@ c.requires('inv', 'dir_inv(self)')
 c.ensures('inv', 'dir_inv(self)')
 c.ensures('removes-exactly-the-expired', 'expired_exactly(self, _now, _max_age)')
 c.assume_note('expiry: time.time() frozen during one _garbage_collect (ages compared at one instant)')
+
+
+# ---- what callers SEE: the accessor results name exactly the current directory, whatever was read before ----------
+# (a stale cached list is a violation of "the name lists name exactly the non-empty ones" that only a history shows:
+#  read, change, read again)
+def _install_views(I):
+    F = I.spec_fns
+
+    def names_exactly(I_, a, k):
+        """names_exactly(lst, d): lst is strictly increasing and holds exactly the keys of d"""
+        lst, d = a
+        if lst is None or not hasattr(lst, 'items'):
+            return False
+        items = I_.read_items(lst)
+        keys = list(I_.read_dict(d).keys())
+        cs = [sorted_items(items)]
+        for x in items:
+            cs.append(Or(*[eq(x, k_) for k_ in keys]))
+        for k_ in keys:
+            cs.append(Or(*[eq(x, k_) for x in items]))
+        return mk(And(*cs), 'bool')
+    F['names_exactly'] = Builtin('spec.names_exactly', names_exactly)
+
+    def members_exactly(I_, a, k):
+        """members_exactly(ls, d): for every key of d, get_*_lights(key) returned the member list held for it"""
+        pairs, d = a
+        dd = I_.read_dict(d)
+        ok = []
+        for key, got in I_.read_items(pairs):
+            hit = [And(eq(key, k_), z3.BoolVal(got is v)) for k_, v in dd.items()]
+            ok.append(Or(*hit))
+        return mk(And(*ok), 'bool')
+    F['members_exactly'] = Builtin('spec.members_exactly', members_exactly)
+
+
+spec.EXTRA_INSTALLERS.append(_install_views)
+
+VIEW = '''
+    def view(ls):
+        g = ls.get_group_names()
+        l = ls.get_location_names()
+        return (g, l, ls.get_light_names(), [(n, ls.get_group_lights(n)) for n in g], [(n, ls.get_location_lights(n)) for n in l],
+                ls.get_light_count(), len(ls.get_lights()))
+'''
+VIEW_OK = ('names_exactly(result[0], ls._groups) and names_exactly(result[1], ls._locations) and names_exactly(result[2], ls._lights) '
+           'and members_exactly(result[3], ls._groups) and members_exactly(result[4], ls._locations) '
+           'and result[5] == count_lights(ls) and result[6] == count_lights(ls)')
+SMALL = [k for k in CASES if k['n'] <= 2]
+
+c = contract(L, 'seen_after_discover', serves=['C13', 'C04'], name='lemma:read names; discover; read names', src='''
+def seen_after_discover(ls):
+%s
+    view(ls)
+    ls.discover()
+    return view(ls)
+''' % VIEW)
+def _setup(b, case):
+    ls, lights = directory(b, case['n'], case['g'], case['l'])
+    x = mk_light(b, 9, 'new_')
+    lib.injection_reset(b)
+    lib.provide(b, b.cls('bardolph.controller.i_controller', 'LightApi'), light_api_stub(b, [x]))
+    return {'ls': ls}
+c.setup(_setup)
+c.bounded('all directories of at most 2 lights, one light reported')
+c.cases(SMALL)
+c.requires('inv', 'dir_inv(ls)')
+c.ensures('the-accessors-show-the-directory-as-it-is-now', VIEW_OK)
+
+c = contract(L, 'seen_after_expiry', serves=['C13', 'C04'], name='lemma:read names; expire; read names', src='''
+def seen_after_expiry(ls):
+%s
+    view(ls)
+    ls._garbage_collect()
+    return view(ls)
+''' % VIEW)
+def _setup(b, case):
+    ls, lights = directory(b, case['n'], case['g'], case['l'])
+    max_age = b.sym('int', 'max_age')
+    now = b.sym('real', 'now')
+    for l in lights:
+        bt = l.attrs['_birth']
+        if isinstance(bt, SymVal):
+            b.assume(bt.t <= now.t)
+    b.module('time').ns['time'] = Builtin('time.time', lambda I_, a, k: now)
+    settings = Opaque('settings', {'get_value': lambda I_, o, a, k: max_age})
+    settings.native = {'kind': 'data', 'returns': {'get_value': max_age}}
+    lib.injection_reset(b)
+    lib.provide(b, b.cls('bardolph.lib.i_lib', 'Settings'), settings)
+    return {'ls': ls}
+c.setup(_setup)
+c.bounded('all directories of at most 2 lights')
+c.cases(SMALL)
+c.requires('inv', 'dir_inv(ls)')
+c.ensures('the-accessors-show-the-directory-as-it-is-now', VIEW_OK)
